@@ -4,7 +4,8 @@ import (
 	"verif/engine/smt"
 )
 
-// AccessLog records heap accesses with the lockset of the accessing goroutine (C19).
+// AccessLog records heap accesses with the tag set by the harness (vf.Track), the
+// accessing goroutine and its lockset (C19).
 type AccessLog struct {
 	Entries []Access
 	tag     int
@@ -14,16 +15,78 @@ type Access struct {
 	Addr  interface{}
 	Write bool
 	Tag   int
+	G     int
 	Locks []*Value
-	Where string
+	Fn    string
 }
 
 func (l *AccessLog) note(ex *Exec, addr *Value, write bool) {
-	l.Entries = append(l.Entries, Access{Addr: addr, Write: write, Tag: l.tag, Locks: append([]*Value(nil), ex.cur.held...)})
+	if l.tag == 0 && ex.cur.id == 0 {
+		return
+	}
+	l.Entries = append(l.Entries, Access{Addr: addr, Write: write, Tag: l.tag, G: ex.cur.id, Locks: append([]*Value(nil), ex.cur.held...), Fn: ex.topFn()})
 }
 
 func (l *AccessLog) noteObj(ex *Exec, obj interface{}, write bool) {
-	l.Entries = append(l.Entries, Access{Addr: obj, Write: write, Tag: l.tag, Locks: append([]*Value(nil), ex.cur.held...)})
+	if l.tag == 0 && ex.cur.id == 0 {
+		return
+	}
+	l.Entries = append(l.Entries, Access{Addr: obj, Write: write, Tag: l.tag, G: ex.cur.id, Locks: append([]*Value(nil), ex.cur.held...), Fn: ex.topFn()})
+}
+
+func (ex *Exec) topFn() string {
+	if n := len(ex.callStack); n > 0 {
+		return ex.callStack[n-1].String()
+	}
+	return ""
+}
+
+// conflicts lists locations accessed by two different parties (tags when byTag,
+// goroutines otherwise), at least once for writing, with no lock in common.
+func (l *AccessLog) conflicts(byTag bool) []string {
+	type acc struct {
+		a Access
+	}
+	byAddr := map[interface{}][]Access{}
+	for _, e := range l.Entries {
+		byAddr[e.Addr] = append(byAddr[e.Addr], e)
+	}
+	var out []string
+	seen := map[string]bool{}
+	for _, es := range byAddr {
+		for i := 0; i < len(es); i++ {
+			for j := i + 1; j < len(es); j++ {
+				x, y := es[i], es[j]
+				px, py := x.G, y.G
+				if byTag {
+					px, py = x.Tag, y.Tag
+					if px == 0 || py == 0 {
+						continue
+					}
+				}
+				if px == py || (!x.Write && !y.Write) {
+					continue
+				}
+				common := false
+				for _, a := range x.Locks {
+					for _, b := range y.Locks {
+						if a == b {
+							common = true
+						}
+					}
+				}
+				if common {
+					continue
+				}
+				d := x.Fn + " <-> " + y.Fn
+				if !seen[d] {
+					seen[d] = true
+					out = append(out, d)
+				}
+			}
+		}
+	}
+	return out
 }
 
 // cmplx.Abs / Phase: uninterpreted over the bit patterns, constrained by the
